@@ -12,7 +12,7 @@ import (
 func init() {
 	register(&core.Rule{ID: "C11.7", Prop: "C11", MinSites: 4,
 		Desc: "a popped segment is settled: on every path from `b := llb.pop()` (b != nil) to a return or to the next pop, b is pushed back, its bytes are returned to the pool (fully consumed) or b itself is returned to the caller – in particular on the error path of a writer that took only part of it",
-		Run: runC11_7})
+		Run:  runC11_7})
 }
 
 func runC11_7(c *core.Ctx) {
@@ -159,7 +159,7 @@ func runC11_7(c *core.Ctx) {
 func init() {
 	register(&core.Rule{ID: "C11.9", Prop: "C11", MinSites: 3,
 		Desc: "a partly consumed segment goes back shortened: between `b := llb.pop()`, a use of b.buf as the source of a copy/Write or a count taken from it, and pushFront(b), b.buf is re-sliced from the consumed count on (b.buf = b.buf[k:]); putting it back whole would deliver the consumed bytes twice",
-		Run: runC11_9})
+		Run:  runC11_9})
 }
 
 func runC11_9(c *core.Ctx) {
